@@ -9,4 +9,7 @@ SpecA == InitA /\ [][EmitNext /\ UNCHANGED bvars]_<<avars, bvars>>
 
 InitB == AcceptInit(AcceptVectors({"none", "decl", "space"}, {"absent", "valid", "invalid"})) /\ x = 0 /\ wire = 0
 SpecB == InitB /\ [][AcceptNext /\ UNCHANGED avars]_<<avars, bvars>>
+(* (non-vacuity runs of the version and look-alike dimensions: those vectors only) *)
+InitBV == (v \in VersionVectors \/ v \in LookVectors) /\ pc = "pre" /\ verdict = "none" /\ x = 0 /\ wire = 0
+SpecBV == InitBV /\ [][AcceptNext /\ UNCHANGED avars]_<<avars, bvars>>
 =============================================================================
